@@ -171,10 +171,12 @@ def always_on_extras(pid, seed, jobs, agg, harness_problem):
         os.environ.pop('PVMON_INSTALL', None)
     scratch = tempfile.mkdtemp(prefix='pvmon_tests_')
     try:
-        shutil.copytree('/repo/tests', os.path.join(scratch, 'tests'))
+        from . import REPO_SRC
+        repo_root = os.path.dirname(REPO_SRC)
+        shutil.copytree(os.path.join(repo_root, 'tests'), os.path.join(scratch, 'tests'))
         for extra in ('pytest.ini',):
-            if os.path.exists(os.path.join('/repo', extra)):
-                shutil.copy(os.path.join('/repo', extra), scratch)
+            if os.path.exists(os.path.join(repo_root, extra)):
+                shutil.copy(os.path.join(repo_root, extra), scratch)
         outp = os.path.join(scratch, 'pvmon_out.json')
         env = dict(os.environ, PVMON_OUT=outp, PYFVTOOL_VERIF='1', MPLBACKEND='Agg')
         r = subprocess.run([sys.executable, '-B', '-m', 'pytest', '-q', '-p', 'no:cacheprovider', '-p', 'pvmon.pytest_plugin', '--timeout=900',
@@ -276,7 +278,7 @@ def main(argv=None):
         by_mech.setdefault(v['mech'], []).append(v)
     mech_counts = {k[5:]: n for k, n in agg['cov'].items() if k.startswith('mech:')}
     new_mechs = [m for m in mech_counts if m not in known_keys]
-    rdir = os.path.join(VERIF_DIR, 'replay', pid)
+    rdir = os.path.join(os.environ.get('PVMON_OUT_DIR', VERIF_DIR), 'replay', pid)
     lines = []
     replay_written = {}
     if by_mech:
@@ -325,8 +327,9 @@ def main(argv=None):
         'wall_s': round(wall, 2),
         'violations': sum(mech_counts[m] for m in new_mechs),
     }
-    os.makedirs(os.path.join(VERIF_DIR, 'evidence'), exist_ok=True)
-    with open(os.path.join(VERIF_DIR, 'evidence', pid + '.json'), 'w') as f:
+    evdir = os.path.join(os.environ.get('PVMON_OUT_DIR', VERIF_DIR), 'evidence')
+    os.makedirs(evdir, exist_ok=True)
+    with open(os.path.join(evdir, pid + '.json'), 'w') as f:
         json.dump(jsonable(ev), f, indent=1)
 
     for ln in lines:
